@@ -111,7 +111,6 @@ def build_int(rng):
         else:
             # unpack consumes xs: last op
             if n >= 2 and rng.random() < 0.7:
-                form = rng.randrange(3)
                 # the rest array is reported element-wise: whole-array result/copy of the offset
                 # array a starred unpack yields is mishandled by the installed QIS compiler (same
                 # garbage with the installed guppylang 1.0.4), which is not /repo's doing
@@ -120,22 +119,29 @@ def build_int(rng):
                     ls.append('    result("umlen", len(um))')
                     return ls, [(f"um{j}", rest[j]) for j in range(len(rest))] + [("umlen", len(rest))]
 
-                if form == 0:
-                    lines.append("    u0, *um, u1 = xs")
-                    ls, ex = rep(model[1:-1])
-                    lines += ['    result("u0", u0)', *ls, '    result("u1", u1)']
-                    exp += [("u0", model[0]), *ex, ("u1", model[-1])]
-                elif form == 1:
-                    lines.append("    u0, *um = xs")
-                    ls, ex = rep(model[1:])
-                    lines += ['    result("u0", u0)', *ls]
-                    exp += [("u0", model[0]), *ex]
-                else:
-                    lines.append("    *um, u1 = xs")
-                    ls, ex = rep(model[:-1])
-                    lines += [*ls, '    result("u1", u1)']
-                    exp += [*ex, ("u1", model[-1])]
-                kinds.append("starred_unpack")
+                # asymmetric numbers of targets before / after the star; right-hand side is the array
+                # itself or the tuple of its elements (a different unpacking path in the compiler)
+                nl = rng.randint(0, min(2, n - 1))
+                nr = rng.randint(0, min(2, n - 1 - nl))
+                if nl + nr == 0:
+                    nl = 1
+                rhs = "xs" if rng.random() < 0.5 else ", ".join(f"xs[{j}]" for j in range(n))
+                lefts = [f"ul{j}" for j in range(nl)]
+                rights = [f"ur{j}" for j in range(nr)]
+                lines.append(f"    {', '.join(lefts + ['*um'] + rights)} = {rhs}")
+                ls, ex = rep(model[nl:n - nr])
+                for j, nm in enumerate(lefts):
+                    lines.append(f'    result("{nm}", {nm})')
+                    exp.append((nm, model[j]))
+                lines += ls
+                exp += ex
+                for j, nm in enumerate(rights):
+                    lines.append(f'    result("{nm}", {nm})')
+                    exp.append((nm, model[n - nr + j]))
+                kinds.append("starred_unpack" if rhs == "xs" else "starred_unpack_of_tuple")
+                if False:
+                    pass
+
             elif n >= 1:
                 names = [f"e{j}" for j in range(n)]
                 lines.append(f"    {', '.join(names)}{',' if n == 1 else ''} = xs")
